@@ -47,3 +47,67 @@ def row_key(batch, names, i):
 def disc_value(x):
     x = float(x)
     return None if np.isinf(x) else int(x)
+
+
+# ---- models for the SMC numeric clauses (C07): hierarchical priors whose child becomes invalid when the
+# ---- parent leaves its support, parameters on arbitrary (mixed) scales.  `build` above is unchanged.
+SMC_KINDS = ('flat', 'hier_uniform', 'hier_normal', 'hier_expon')
+SMC_EXTRAS = (None, 'norm', 'unif')
+
+
+def sim_scaled(*params, batch_size=1, random_state=None, width=2, scales=()):
+    """the simulator sees every parameter in units of its own scale, so the discrepancies (and therefore the
+    whole run up to the units of the parameters) do not depend on the scales; it runs for ANY real input"""
+    x = random_state.normal(size=(batch_size, width))
+    for p, s in zip(params, scales):
+        x = x + (np.asarray(p, dtype=float) / s).reshape(-1, 1)
+    return x
+
+
+def smc_param_names(cfg):
+    names = {'flat': ['t1', 't2'] if cfg.get('two_params') else ['t1'], 'hier_uniform': ['sc', 'lo'],
+             'hier_normal': ['sd', 'mu'], 'hier_expon': ['sc', 'lo']}[cfg['kind']]
+    return names + (['t3'] if cfg.get('extra') else [])
+
+
+def build_smc(cfg):
+    """cfg: dict(kind in SMC_KINDS, two_params (flat only), s1 = scale of the core parameters, extra in SMC_EXTRAS,
+    s2 = scale of the extra parameter, width, levels).
+      flat          t1 ~ U(-s1, s1)          [t2 ~ N(t1, 0.5 s1)]      (the prior of `build`, in units of s1)
+      hier_uniform  sc ~ U(0, 2 s1)           lo ~ U(0, sc)             child undefined for sc <= 0
+      hier_normal   sd ~ U(0, 2 s1)           mu ~ N(0, sd)             child undefined for sd <= 0
+      hier_expon    sc ~ Expon(scale=s1)      lo ~ U(0, sc)             child undefined for sc <= 0
+      extra         t3 ~ N(0, s2) | U(0, s2)  independent, on its own scale"""
+    import elfi
+    s1, s2 = float(cfg['s1']), float(cfg.get('s2', 1.0))
+    m = elfi.ElfiModel(name='smcnum')
+    kind = cfg['kind']
+    if kind == 'flat':
+        t1 = elfi.Prior('uniform', -s1, 2 * s1, model=m, name='t1')
+        params = [t1]
+        if cfg.get('two_params'):
+            params.append(elfi.Prior('norm', t1, 0.5 * s1, model=m, name='t2'))
+    elif kind == 'hier_uniform':
+        sc = elfi.Prior('uniform', 0, 2 * s1, model=m, name='sc')
+        params = [sc, elfi.Prior('uniform', 0, sc, model=m, name='lo')]
+    elif kind == 'hier_normal':
+        sd = elfi.Prior('uniform', 0, 2 * s1, model=m, name='sd')
+        params = [sd, elfi.Prior('norm', 0, sd, model=m, name='mu')]
+    elif kind == 'hier_expon':
+        sc = elfi.Prior('expon', 0, s1, model=m, name='sc')
+        params = [sc, elfi.Prior('uniform', 0, sc, model=m, name='lo')]
+    else:
+        raise ValueError(kind)
+    scales = [s1] * len(params)
+    if cfg.get('extra') == 'norm':
+        params.append(elfi.Prior('norm', 0, s2, model=m, name='t3'))
+        scales.append(s2)
+    elif cfg.get('extra') == 'unif':
+        params.append(elfi.Prior('uniform', 0, s2, model=m, name='t3'))
+        scales.append(s2)
+    width = cfg.get('width', 2)
+    sim = elfi.Simulator(partial(sim_scaled, width=width, scales=tuple(scales)), *params, model=m, name='sim',
+                         observed=np.zeros((1, width)))
+    s1n = elfi.Summary(summ_fn, sim, model=m, name='s1')
+    elfi.Discrepancy(partial(disc_fn, levels=cfg.get('levels', 4), inf_above=None), s1n, model=m, name='d')
+    return m
